@@ -22,4 +22,4 @@ CONSTANTS
   ParentOf <- Chain
   Ops = {"res", "roa", "refresh"}
 CONSTANTS
-  MaxApi = 12
+  MaxApi = 8
